@@ -17,4 +17,22 @@ def declaredOutsideWhy : List (String × String) :=
 
 def declaredOutside : List String := declaredOutsideWhy.map (·.1)
 
+/-- API members whose result is *meant* to be (part of) an argument: outside the no-shared-state obligation
+(`generated_results_fresh`), still inside every other obligation.  Reading decisions that need no entry here:
+records handed in by the caller (Mod, Interval, Fragment, FragmentMatch, EnzymeConfig, ModEntry) may be handed back - the
+translator casts them to `recd` / `recTop` objects by their static type and `shareParamOf` exempts those; property getters
+are not callables of the surface (they are analysed and held to `getters_pure`); editors (`pop_*` hand back what they
+removed) are exempt as editors.  `@cached_property` memoisation on frozen records (Fragment.label/number, ModEntry) is keyed
+by immutable fields and is not counted as a write (reading decision). -/
+def declaredSharingWhy : List (String × String) :=
+  [("ProFormaAnnotation.get_internal_mods_by_index",
+      "accessor: documented to return the internal-mod list stored at that index (the field itself), used by __eq__"),
+   ("create_multi_annotation",
+      "aggregate constructor: the MultiProFormaAnnotation is documented to consist of the annotations and connections given"),
+   ("merge_dicts",
+      "shallow merge of two dicts whose values are added with `+` (numbers); annotated plain `Dict`, so the analysis cannot " ++
+      "see that the values are immutable; the result dict itself is new")]
+
+def declaredSharing : List String := declaredSharingWhy.map (·.1)
+
 end Effects
